@@ -59,6 +59,12 @@ class Eval:
 
     # ------------------------------------------------------------------ helpers
     def place_text(self, place):
+        # a place reached through a reference local (`link = &mut split.left; (*link).mode`) is named after its target
+        hops = 0
+        while place['p'] and place['p'][0]['k'] == 'deref' and (place['l'], ()) in getattr(self, 'alias_place', {}) and hops < 4:
+            tgt = self.alias_place[(place['l'], ())]
+            place = {'l': tgt['l'], 'p': list(tgt['p']) + list(place['p'][1:])}
+            hops += 1
         k = (place['l'], tuple((e['k'], e.get('n'), e.get('o')) for e in place['p']))
         if k not in self._text:
             t = show(self.f.place_term(place)).replace('*', '').replace('(', '').replace(')', '')
@@ -82,6 +88,10 @@ class Eval:
         txt = self.place_text(place)
         if txt in self.assume:
             return frozenset([self.assume[txt]])
+        # keys starting with '.' are suffix patterns: '.left.mode' pins every place whose printed path ends that way
+        for k, v in self.assume.items():
+            if k.startswith('.') and (txt.endswith(k) or '.' + txt == k):
+                return frozenset([v])
         return TOP
 
     def subtree(self, st, key):
@@ -134,6 +144,12 @@ class Eval:
         tree = {}
         if k == 'use':
             tree = self.operand_tree(st, rv['o'])
+            o = rv['o']
+            if o.get('k') in ('copy', 'move') and not o['place']['p'] and not place['p'] and (o['place']['l'], ()) in self.alias:
+                # a reference moved into another local (e.g. into the parameter of an inlined helper) keeps its target
+                self.alias[key] = self.alias[(o['place']['l'], ())]
+                if (o['place']['l'], ()) in self.alias_place:
+                    self.alias_place[key] = self.alias_place[(o['place']['l'], ())]
         elif k == 'discr':
             v = self.read(st, rv['place'])
             if v is not TOP:
@@ -177,6 +193,15 @@ class Eval:
             for i, o in enumerate(rv['ops']):
                 for rest, v in self.operand_tree(st, o).items():
                     tree[(str(i),) + rest] = v
+        elif k == 'agg' and rv.get('agg') == 'closure':
+            g = self.F.fns.get(rv['closure'])
+            names = [u.get('name') for u in (g.j.get('upvars') or [])] if g is not None else []
+            for i, o in enumerate(rv['ops']):
+                for rest, v in self.operand_tree(st, o).items():
+                    tree[(str(i),) + rest] = v
+                    if i < len(names) and names[i]:
+                        tree[(names[i],) + rest] = v
+            self.closures[key] = rv['closure']
         elif k == 'ref':
             # a reference is transparent for value tracking: reads through it use the same access path only when the
             # reference is to a whole local; otherwise unknown
@@ -186,6 +211,8 @@ class Eval:
                 if v is not TOP:
                     tree[()] = v
             self.alias[key] = _key(rv['place'])
+            if not place['p']:
+                self.alias_place[key] = rv['place']
         self.write_tree(st, key, tree)
         # writes through a reference also update what it points to
         if place['p'] and place['p'][0]['k'] == 'deref' and (place['l'], ()) in self.alias:
@@ -214,6 +241,8 @@ class Eval:
                 # the residual keeps the whole failed value: Break(Err(e)) / Break(None)
                 if rest[:1] in (('@Err',), ('@None',)) or rest == ():
                     tree[('@Break', '0') + rest] = v
+        elif callee.endswith('Iterator::find') and len(args) == 2:
+            tree = self.model_find(st, b, t) or {}
         elif callee.endswith('FromResidual::from_residual') and args:
             # Err(e) -> Err(From::from(e)): the variant of an error that converts into itself is kept
             tree = dict(self.operand_tree(st, args[0]))
@@ -279,12 +308,65 @@ class Eval:
             if self.watch(txt):
                 self.assigned[(b, -1, txt)] = tree.get((), TOP)
 
+    def model_find(self, st, b, t):
+        """`ARRAY.into_iter().find(closure)` over an array of known enum values / integers: the first element for which the
+        closure evaluates to true"""
+        from facts import strip, walk
+        c = self.f.call_at(b)
+        if c is None:
+            return None
+        arr = None
+        for x in walk(c.arg_term(0)):
+            if x[0] == 'array':
+                arr = x
+                break
+        clo = strip(c.arg_term(1))
+        if arr is None or clo[0] != 'closure' or clo[1] not in self.F.fns:
+            return None
+        g = self.F.fns[clo[1]]
+        elems = []
+        for e in arr[1]:
+            e0 = strip(e)
+            if e0[0] == 'agg' and len(e0) > 2:
+                vidx = None
+                a = self.F.adts.get(e0[1])
+                if a:
+                    for i, v in enumerate(a.get('variants', [])):
+                        if v['name'] == e0[2]:
+                            vidx = i
+                if vidx is None:
+                    return None
+                elems.append(self.discr_of_variant(e0[1], vidx))
+            elif e0[0] == 'const' and isinstance(e0[2], int):
+                elems.append(e0[2])
+            else:
+                return None
+        # the captures of the closure value passed as second argument
+        env = {}
+        a1 = t['args'][1]
+        if a1.get('k') in ('copy', 'move'):
+            for rest, v in self.subtree(st, _key(a1['place'])).items():
+                env[rest] = v
+        for d in elems:
+            params = {1: dict(env), 2: {(): frozenset([d])}}
+            sub = Eval(self.F, g, params=params, depth=self.depth + 1, call_hook=self.call_hook)
+            sub.run()
+            r = (sub.ret or {}).get(())
+            if r == frozenset([1]):
+                return {(): frozenset([1]), ('@Some', '0'): frozenset([d])}
+            if r != frozenset([0]):
+                return None
+        return {(): frozenset([0])}
+
     # ------------------------------------------------------------------ driver
     def run(self):
         f = self.f
         self.src = {}     # temp holding discriminant/cast -> key of the place it was read from
         self.cmp = {}     # temp holding (src == const) -> (src key, const, is_eq)
         self.alias = {}   # reference local -> key of the place it points to
+        self.alias_place = {}
+        self._text = {}
+        self.closures = {}   # local holding a closure value -> closure path
         init = {}
         for l, tree in self.params.items():
             for rest, v in tree.items():
